@@ -125,25 +125,10 @@ def handles(state, error, retry_count):
     return handler_of(state, error, retry_count) is not None
 
 
-def static_seq(machine, name, fuel=12):
-    """what the definition alone says about the visits from state `name` on, as far as it is certain: Pass / Succeed / Wait
-    states, then a Task (whose outcome is not known: "?" unless it ends the sequence)"""
-    st = find_state(machine, name) if isinstance(name, str) and name else None
-    if fuel == 0 or not isinstance(st, dict):
-        return ["?"]
-    ty = st.get("Type")
-
-    def then():
-        if st.get("End") or ty == "Succeed":
-            return []
-        return static_seq(machine, st.get("Next"), fuel - 1)
-    if ty in ("Pass", "Succeed") and not any(k in st for k in ("InputPath", "OutputPath", "Parameters", "ResultPath")):
-        return ["S"] + then()
-    if ty == "Wait" and not any(k in st for k in ("InputPath", "OutputPath")):
-        return ["W"] + then()
-    if ty == "Task" and str(st.get("Resource", "")).startswith(FUNCTION) and "Parameters" not in st:
-        return ["T"] + ([] if st.get("End") else ["?"])
-    return ["?"]
+class PseudoVisit(object):
+    """a visit the reference run never made, inside the Branch frames `branch`"""
+    def __init__(self, branch):
+        self.branch, self.mid = branch, None
 
 
 class Visit(object):
@@ -160,8 +145,10 @@ class Visit(object):
         self.cause = None           # (kind, message id) of the handler invocation that published it
 
 
-def skeleton(machines, lab):
-    """The skeleton of the (crash-free) run that went through the Labeller `lab`.  `machines`: state machine ARN -> definition.
+def skeleton(machines, lab, plans=None):
+    """The skeleton of the (crash-free) run that went through the Labeller `lab`.  `machines`: state machine ARN -> definition;
+    `plans`: what the workers answer, per function a list of outcomes indexed by the attempt that asks (for the visits the
+    reference run never got to: where the definition and the plans leave no doubt they are filled in, otherwise "?").
     Every event the engine published is one state visit (the Branch stacks in the event contexts give the tree); what a visit
     led to is read from the handler invocation that published what followed.  A visit that fails (a Task whose worker answered
     with an error its state does not handle, a Fail state, a handler that ended the execution FAILED) is followed by
@@ -209,6 +196,44 @@ def skeleton(machines, lab):
                     self.threads.setdefault(v.stack, []).append(v)
             self.taken = set()      # message ids of the failing visits whose continuation is the reference run's
 
+        def static_seq(self, name, frames, ctx, own_rc=0, fuel=12):
+            """what the definition and the workers' plans say about the visits from state `name` on, inside the Branch
+            frames `frames` (innermost last), as far as it is certain: Pass / Succeed / Wait states without data handling
+            that could fail, Tasks calling a planned function"""
+            st = find_state(self.machine, name) if isinstance(name, str) and name else None
+            if fuel == 0 or not isinstance(st, dict):
+                return ["?"]
+            ty = st.get("Type")
+
+            def then(rc=0):
+                if st.get("End") or ty == "Succeed":
+                    return []
+                return self.static_seq(st.get("Next"), frames, ctx, 0, fuel - 1)
+            if ty in ("Pass", "Succeed") and not any(k in st for k in ("InputPath", "OutputPath", "Parameters", "ResultPath")):
+                return ["S"] + then()
+            if ty == "Wait" and not any(k in st for k in ("InputPath", "OutputPath")):
+                return ["W"] + then()
+            if ty == "Task" and str(st.get("Resource", "")).startswith(FUNCTION) and "Parameters" not in st:
+                item = {"T": own_rc} if own_rc else "T"
+                fn = str(st.get("Resource"))[len(FUNCTION):]
+                if plans is None:
+                    return [item] + ([] if st.get("End") else ["?"])
+                n = lambda x: x if isinstance(x, int) and not isinstance(x, bool) else 0
+                k = own_rc + sum(n(f.get("RetryCount")) for f in frames)
+                outcomes = plans.get(fn) or [("ok",)]
+                o = outcomes[min(k, len(outcomes) - 1)]
+                if o[0] == "ok":
+                    return [item] + then()
+                if o[0] != "err":
+                    return [item, "?"]
+                h = handler_of(st, o[1], own_rc)
+                if h is not None and h[0] == "retry":
+                    return [item] + self.static_seq(name, frames, ctx, own_rc + 1, fuel - 1)
+                if h is not None:
+                    return [item] + self.static_seq(h[1], frames, ctx, 0, fuel - 1)
+                return [item] + self.fail_item(PseudoVisit(frames), o[1], ctx)
+            return ["?"]
+
         def state(self, v):
             st = find_state(self.machine, v.name or self.machine.get("StartAt"))
             if not isinstance(st, dict):
@@ -234,7 +259,7 @@ def skeleton(machines, lab):
             # not the failure the reference run took: a Catch leads where the definition says; a retry to a new attempt of the
             # fan-out state, which is taken to go as the next attempt went in the reference run (the workers answer by attempt)
             if how[0] == "catch":
-                return [{"fail": lvl, "cont": static_seq(self.machine, how[1])}]
+                return [{"fail": lvl, "cont": self.static_seq(how[1], v.branch[:len(v.branch) - lvl - 1], ctx[lvl + 1:])}]
             if following and isinstance(following[0], dict) and "par" in following[0]:
                 return [{"fail": lvl, "cont": following}]
             return [{"fail": lvl, "cont": ["?"]}]
@@ -255,7 +280,7 @@ def skeleton(machines, lab):
                     return [item] + self.seq(prefix, start + 1, ctx)
                 if st.get("End") or ty == "Succeed":
                     return [item]
-                return [item] + static_seq(self.machine, st.get("Next"))    # the reference run never got that far
+                return [item] + self.static_seq(st.get("Next"), v.branch, ctx)    # the reference run never got that far
             if self.execution in failed_by.get(v.mid, ()) and ty not in ("Parallel", "Map"):
                 # its own handler ended the execution FAILED (whatever the definition says its Retry / Catch would do)
                 item = ({"T": v.rc} if v.rc else "T") if ty == "Task" and v.mid in reqd else ("W" if ty in ("Task", "Wait") else "S")
@@ -265,7 +290,7 @@ def skeleton(machines, lab):
                 if res.startswith(SYNC_CHILD):
                     kids = [x for x in visits if x.cause == ("tm", v.mid) and x.execution != self.execution and x.name in ("", None)]
                     if not kids:
-                        return [{"child": ["?"], "rc": v.rc}] + ([] if st.get("End") else static_seq(self.machine, st.get("Next")))
+                        return [{"child": ["?"], "rc": v.rc}] + ([] if st.get("End") else self.static_seq(st.get("Next"), v.branch, ctx))
                     kid = kids[0]
                     km = machines.get(kid.machine)
                     if km is None:
@@ -277,7 +302,8 @@ def skeleton(machines, lab):
                     item = {"T": v.rc} if v.rc else "T"
                     if v.mid not in reqd:
                         # dropped before its deferred handler ran (its fan-out had failed): what it would have led to is not known
-                        return [item] + ([] if st.get("End") else static_seq(self.machine, st.get("Next")))
+                        # (what it would have been answered is in the plans)
+                        return self.static_seq(v.name or self.machine.get("StartAt"), v.branch, ctx, v.rc)
                     error = errs.get(v.mid)
                 else:
                     raise Unsupported("a Task that is neither a function call nor a synchronous child execution")
@@ -318,12 +344,13 @@ def skeleton(machines, lab):
                     else:
                         # an iteration of a later batch that was never launched: what the iterator's definition says
                         it = st.get("Iterator") or st.get("ItemProcessor") or {}
-                        branches.append(static_seq(self.machine, it.get("StartAt")) if ty == "Map" else ["?"])
+                        fr = [dict(f) for f in kids[0].branch[:-1]] + [dict(kids[0].branch[-1], Index=ix)]
+                        branches.append(self.static_seq(it.get("StartAt"), fr, inner) if ty == "Map" else ["?"])
                 handled_here = nxt is not None and nxt.cause is not None and nxt.cause[1] in (self.taken - before)
                 item = {"par": branches, "mc": mc}
                 if handled_here or nxt is None:
                     # the join of this attempt did not complete in the reference run: what follows it is what the definition says
-                    return [item] + ([] if st.get("End") else static_seq(self.machine, st.get("Next")))
+                    return [item] + ([] if st.get("End") else self.static_seq(st.get("Next"), v.branch, ctx))
                 return [item] + following
             raise Unsupported("state type %r" % ty)
 
